@@ -4,8 +4,7 @@ Only property statements live here; every proof is a reference to a lemma of Cod
 SimpleLemmas / VarsLemmas / Lemmas / JsonLemmas, so a statement cannot be weakened quietly.
 
 Not proved (tied by the correspondence run and decided by the direct oracle only): the indented
-text layouts of Indexed MRS and MRX, the MRX and JSON text level (library parameters), multi-item
-documents for MRX and MRS-JSON (a list of independent trees / dictionaries).
+text layout of MRX, the MRX and JSON text level (library parameters).
 -/
 import Verif.Common.CodecLemmas
 import Verif.C01.Lemmas
@@ -22,6 +21,8 @@ import Verif.C01.MrxStableLemmas
 import Verif.C01.IxStableLemmas
 import Verif.C01.LexToksLemmas
 import Verif.C01.LexLemmas
+import Verif.C01.DocsLemmas
+import Verif.C01.IxLayoutLemmas
 
 namespace Verif.C01.P
 open Verif.Codec Verif.Tables Verif.C01
@@ -174,6 +175,22 @@ theorem mrx_stable (o : Opts) (m : MRS)
     (hn : (m.vars.map (·.1)).Nodup) (hp : ∀ vp ∈ m.vars, (vp.2.map (·.1)).Nodup) :
     toXml o (decodedX o m) = toXml o m := toXml_decodedX o m hn hp
 
+/-- "This holds for single items and multi-item documents" (MRX, tree level, `loads` ∘ `dumps`): the
+`mrs-list` element `_encode` builds for a list of structures is read back by `_decode` (every element with
+the tag `mrs`, in document order) as the list of the decoded structures — one per item, in order. -/
+theorem mrx_roundtrip_many (o : Opts) (ms : List MRS) (h : ∀ m ∈ ms, ExprX m) :
+    ofXmlList (toXmlList o ms) = some (ms.map (decodedX o)) := ofXmlList_toXmlList o ms h
+
+/-- "single vs. list API" (MRX): the text of a single item (`encode`) read through the list reader
+(`loads`/`load`) gives exactly that one structure — the root `mrs` element is the only element with that tag. -/
+theorem mrx_loads_single (o : Opts) (m : MRS) (h : ExprX m) : ofXmlList (toXml o m) = some [decodedX o m] :=
+  ofXmlList_toXml o m h
+
+/-- "encoding that result again reproduces the text exactly" (MRX documents, tree level). -/
+theorem mrx_stable_many (o : Opts) (ms : List MRS)
+    (h : ∀ m ∈ ms, (m.vars.map (·.1)).Nodup ∧ ∀ vp ∈ m.vars, (vp.2.map (·.1)).Nodup) :
+    toXmlList o (ms.map (decodedX o)) = toXmlList o ms := toXmlList_decodedX o ms h
+
 /-! ## Indexed MRS, token level, relative to a SEM-I that covers the structure -/
 
 /-- "… and Indexed MRS relative to a SEM-I that covers the structure, where property values compare
@@ -223,6 +240,56 @@ theorem indexed_text_roundtrip (semi : Ix.SemI) (o : Opts) (m : MRS) (ts : List 
   rw [indexed_lex_render semi o m ts hl ht]
   simp only [List.append_nil] at hd
   simp [hd]
+
+/-- "for every indentation setting" (Indexed MRS, character level): ANY layout that writes blanks and line
+feeds after the tokens is read back by the model of `_IndexedMRSLexer` as the tokens, provided the tokens
+are lexically expressible, two adjacent symbols are separated and an opening angle bracket is followed by
+white space (`IxLayL.GapOK`). -/
+theorem indexed_lex_any_layout (l : List (Ix.TI × Str)) (h : IxLayL.GapOK l) :
+    IxLex.lexIx (IxLex.renderG l) = some (l.map (·.1)) := IxLayL.lexIx_renderG l h
+
+/-- "for every indentation setting" (Indexed MRS): for every indentation width n (`indent=True` is 2) the
+indented text of the encoder's tokens (`renderIxInd n`, compared with the real `encode(…, indent=n)` text on
+every generated case) is read back as the tokens. -/
+theorem indexed_lex_indented (semi : Ix.SemI) (o : Opts) (m : MRS) (ts : List Ix.TI) (n : Nat)
+    (h : IxLex.LexExprI semi o m) (ht : Ix.toksIx semi o m = .ok ts) :
+    IxLex.lexIx (IxLex.renderIxInd n ts) = some ts :=
+  IxLex.lexIx_renderIxInd n ts (IxLex.toksIx_ok semi o m ts h ht).1
+
+/-- Indexed MRS, text level, indented layout of any width: lexing the indented text and running the decoder
+gives a structure with the same top, index, EPs (`epViewI`), constraints and the property maps `propsViewI`. -/
+theorem indexed_text_roundtrip_indented (semi : Ix.SemI) (o : Opts) (m : MRS) (ts : List Ix.TI) (n : Nat)
+    (hl : IxLex.LexExprI semi o m) (htop : m.top.isSome = true) (hc : ∀ e ∈ m.rels, Ix.CoverEP semi e)
+    (hp : Ix.propsCover semi m = true) (hn : (m.vars.map (·.1)).Nodup)
+    (ht : Ix.toksIx semi o m = .ok ts) :
+    ∃ d, (IxLex.lexIx (IxLex.renderIxInd n ts)).map (Ix.parseIx semi) = some (.ok (d, []))
+      ∧ d.top = m.top ∧ d.index = m.index ∧ d.rels = m.rels.map (Ix.epViewI semi o)
+      ∧ d.hcons = m.hcons ∧ d.icons = m.icons
+      ∧ ∀ v, v ∈ fillOrder m.top m.index (m.rels.map (Ix.epViewI semi o)) m.hcons m.icons →
+          dget d.vars v = some (Ix.propsViewI semi o m v) := by
+  obtain ⟨d, hd, h1, h2, h3, h4, h5, _, _, _, h9⟩ := indexed_roundtrip semi o m ts [] htop hc hp hn ht
+  refine ⟨d, ?_, h1, h2, h3, h4, h5, h9⟩
+  rw [indexed_lex_indented semi o m ts n hl ht]
+  simp only [List.append_nil] at hd
+  simp [hd]
+
+/-- "multi-item documents … for every indentation setting" (Indexed MRS, TEXT level, `dumps`/`loads` with an
+indentation width n: the items' indented texts separated by line feeds — `renderIxInd n` of the items' tokens
+in a row): the lexer reads the document back as the concatenation of the items' token lists, and the list
+decoder returns one structure per item, each decoded as its item. -/
+theorem indexed_text_roundtrip_many (semi : Ix.SemI) (o : Opts) (items : List (MRS × List Ix.TI)) (n : Nat)
+    (hl : ∀ p ∈ items, IxLex.LexExprI semi o p.1) (h : ∀ p ∈ items, Ix.OkItem semi o p.1 p.2) :
+    IxLex.lexIx (IxLex.renderIxInd n (items.flatMap (·.2))) = some (items.flatMap (·.2))
+    ∧ ∃ ds, (IxLex.lexIx (IxLex.renderIxInd n (items.flatMap (·.2)))).map (Ix.parseManyIx semi (items.length + 1)) = some (.ok ds)
+        ∧ Ix.All2 (Ix.DecodedAs semi o) (items.map (·.1)) ds := by
+  have hlex : IxLex.lexIx (IxLex.renderIxInd n (items.flatMap (·.2))) = some (items.flatMap (·.2)) := by
+    apply IxLex.lexIx_renderIxInd
+    intro t ht
+    obtain ⟨p, hp, htp⟩ := List.mem_flatMap.1 ht
+    exact (IxLex.toksIx_ok semi o p.1 p.2 (hl p hp) (h p hp).2.2.2.2).1 t htp
+  refine ⟨hlex, ?_⟩
+  obtain ⟨ds, hd, ha⟩ := Ix.parseManyIx_toksIx semi o items h (items.length + 1) (Nat.le_refl _)
+  exact ⟨ds, by rw [hlex]; simp [hd], ha⟩
 
 /-- "encoding that result again reproduces the text exactly" (Indexed MRS, token level): whatever
 the decoder returns for the encoder's tokens (followed by any further tokens) is encoded to the
@@ -297,6 +364,16 @@ theorem mrsjson_stable_needs_charspan : ∃ (o : Opts) (m : MRS), Filled m ∧ t
 theorem mrsjson_stable_twice (o : Opts) (m : MRS) : toDict o (viewJ o (viewJ o m)) = toDict o (viewJ o m) :=
   toDict_viewJ_viewJ o m
 
+
+/-- "This holds for single items and multi-item documents" (MRS-JSON, dictionary level, `loads` ∘ `dumps`):
+the list of dictionaries is read back as the list of views, one per item, in order. -/
+theorem mrsjson_roundtrip_many (o : Opts) (ms : List MRS) (h : ∀ m ∈ ms, Filled m) :
+    fromDictList (toDictList o ms) = some (ms.map (viewJ o)) := fromDictList_toDictList o ms h
+
+/-- "encoding that result again reproduces the text exactly" (MRS-JSON documents, character-span Lnks). -/
+theorem mrsjson_stable_many (o : Opts) (ms : List MRS)
+    (hc : ∀ m ∈ ms, ∀ e ∈ m.rels, e.lnk = .unspec ∨ ∃ a b, e.lnk = .charspan a b) :
+    toDictList o (ms.map (viewJ o)) = toDictList o ms := toDictList_viewJ o ms hc
 
 /-! ## pins: the constants of the anchored code that the models hand-code (read from the live code on
 every run into Verif/Generated/TablesC01.lean; literal copies here) -/
@@ -769,5 +846,18 @@ example : ∀ ts d r, Ix.toksIx exSemi ⟨true, true⟩ exI = .ok ts → Ix.pars
   fun ts d r h hp => indexed_stable exSemi _ exI d ts [] r exI_top exI_cover exI_propsCover exI_nodup h hp
 example : toXml ⟨true, true⟩ (decodedX ⟨true, true⟩ exM) = toXml ⟨true, true⟩ exM := mrx_stable _ _ exM_nodup.1 exM_nodup.2
 example : toks ⟨false, true⟩ (decodedS ⟨false, true⟩ exM) = toks ⟨false, true⟩ exM := simplemrs_stable _ _ exM_nodup.1 exM_nodup.2
+
+example : ofXmlList (toXmlList ⟨true, true⟩ [exM, exM]) = some [decodedX ⟨true, true⟩ exM, decodedX ⟨true, true⟩ exM] :=
+  mrx_roundtrip_many _ _ (by intro m hm; simp only [List.mem_cons, List.not_mem_nil, or_false, or_self] at hm; subst hm; exact exM_exprX)
+example : fromDictList (toDictList ⟨false, true⟩ [exM, exI]) = some [viewJ ⟨false, true⟩ exM, viewJ ⟨false, true⟩ exI] := by decide
+example : ofXmlList (toXmlList ⟨true, true⟩ []) = some [] := by decide
+
+/-- the indented text the model produces for the witness (indent=True). -/
+example : (Ix.toksIx exSemi ⟨true, true⟩ exI).toOption.map (IxLex.renderIxInd 2)
+    = some "< h0, e2:PROP:PRES:-,\n  { h1:_chase_v_1<0:4>(e2, x4:3:SG, \"a\\\"b\") },\n  { h0 qeq h1 } >".toList := by decide
+example : ∃ ts, Ix.toksIx exSemi ⟨true, true⟩ exI = .ok ts ∧ IxLex.lexIx (IxLex.renderIxInd 7 ts) = some ts := by
+  cases h : Ix.toksIx exSemi ⟨true, true⟩ exI with
+  | error e => have := exI_toks; rw [h] at this; cases this
+  | ok ts => exact ⟨ts, rfl, indexed_lex_indented exSemi _ exI ts 7 exI_lexExprI h⟩
 
 end Verif.C01.P
